@@ -379,3 +379,34 @@ class exempt_short_is_left_untouched:
             out[name + ': Z1 keeps its terminals towards the exempt element'] = r['Z1'].node1 == 'b'
         out['non-exempt ideal sources are contracted'] = [b.id for b in result[0].branches] == ['K', 'Z1'] and result[0]['K'].node1 == '0' and result[0]['Z1'].node2 == '0'
         return out
+
+
+@contract('CircuitCalculator.Network.NodalAnalysis.node_analysis.open_circuit_impedance', props=['C06'], bounded='one topology with two dangling nodes sorted before the queried node')
+class port_impedance_with_two_dangling_nodes:
+    def inputs(g):
+        return dict(net=Network([Branch('a', '0', elm.open_circuit('Ca')), Branch('b', 'a', elm.open_circuit('Cb')), Branch('c', '0', elm.resistor('R1', g.pos('R1'))),
+                                 Branch('d', 'c', elm.resistor('R2', g.pos('R2'))), Branch('d', '0', elm.resistor('R3', g.pos('R3')))], '0'))
+
+    def call(f, net):
+        return (f(net, 'c', '0'), f(net, 'd', '0'), f(net, 'd', 'c'))
+
+    def ensures(result, net):
+        R1, R2, R3 = net['R1'].element.Z, net['R2'].element.Z, net['R3'].element.Z
+        return {'Z(c,0) = R1 || (R2 + R3)': eq(result[0] * (R1 + R2 + R3), R1 * (R2 + R3)),
+                'Z(d,0) = R3 || (R1 + R2)': eq(result[1] * (R1 + R2 + R3), R3 * (R1 + R2)),
+                'Z(d,c) = R2 || (R1 + R3)': eq(result[2] * (R1 + R2 + R3), R2 * (R1 + R3))}
+
+
+@contract('CircuitCalculator.Network.NodalAnalysis.node_analysis.open_circuit_impedance', props=['C06'], bounded='series R-L-C at resonance (jX and -jX)')
+class port_impedance_series_resonance:
+    def inputs(g):
+        X = g.pos('X')
+        return dict(net=Network([Branch('1', '2', elm.resistor('R', g.pos('R'))), Branch('2', '3', elm.impedance('L', 1j * X)),
+                                 Branch('3', '0', elm.impedance('C', -1j * X))], '0'))
+
+    def call(f, net):
+        return (f(net, '1', '0'), f(net, '2', '0'), f(net, '3', '0'))
+
+    def ensures(result, net):
+        R, X = net['R'].element.Z, net['L'].element.Z.imag
+        return {'Z(1,0) = R + jX - jX': eq(result[0], R), 'Z(2,0) = 0': eq(result[1], 0), 'Z(3,0) = -jX': eq(result[2], -1j * X)}
